@@ -147,7 +147,35 @@ fn sw_link(a: &mut Acc, b: &[u8]) {
     a.r(MacsecHeader::from_slice(b));
 }
 
+/// the provided methods of Iterator (count, last, nth, fold, size_hint) may be specialised by an iterator type: they must terminate and
+/// agree with what repeated next() calls yield
+fn sw_iter<I: Iterator + Clone>(a: &mut Acc, it: &I)
+where
+    I::Item: Debug,
+{
+    const CAP: usize = 400;
+    let n = { let mut c = it.clone(); let mut n = 0; while n < CAP && c.next().is_some() { n += 1; } n };
+    if n >= CAP {
+        a.flag("c02.unbounded_iteration");
+        return;
+    }
+    let items: Vec<String> = it.clone().take(CAP).map(|x| format!("{:?}", x)).collect();
+    let (lo, hi) = it.size_hint();
+    let ok = it.clone().count() == n
+        && it.clone().fold(0usize, |c, _| c + 1) == n
+        && it.clone().last().map(|x| format!("{:?}", x)) == items.last().cloned()
+        && it.clone().nth(0).map(|x| format!("{:?}", x)) == items.first().cloned()
+        && it.clone().nth(n).is_none()
+        && (n == 0 || it.clone().nth(n - 1).map(|x| format!("{:?}", x)) == items.last().cloned())
+        && lo <= n
+        && hi.map(|h| n <= h).unwrap_or(true);
+    if !ok {
+        a.flag("c02.iterator_methods_disagree");
+    }
+}
+
 fn sw_opts(a: &mut Acc, it: TcpOptionsIterator) {
+    sw_iter(a, &it);
     let mut it = it;
     let mut budget = 64;
     loop {
@@ -220,6 +248,7 @@ fn sw_net(a: &mut Acc, b: &[u8]) {
         match Ipv6ExtensionsSlice::from_slice(IpNumber(nh), b) {
             Ok((x, n, rest)) => {
                 a.s(x.slice()); a.d(x.first_header()); a.d(x.is_fragmenting_payload()); a.d(n); a.s(rest);
+                sw_iter(a, &x.clone().into_iter());
                 for (i, e) in x.clone().into_iter().enumerate() {
                     a.d(e);
                     if i > 300 {
@@ -232,6 +261,7 @@ fn sw_net(a: &mut Acc, b: &[u8]) {
         }
         let (x, n, rest, st) = Ipv6ExtensionsSlice::from_slice_lax(IpNumber(nh), b);
         a.s(x.slice()); a.d(x.first_header()); a.d(x.is_fragmenting_payload()); a.d(n); a.s(rest); a.d(st);
+        sw_iter(a, &x.clone().into_iter());
         for (i, e) in x.clone().into_iter().enumerate() {
             a.d(e);
             if i > 300 {
@@ -331,6 +361,7 @@ fn sw_transport(a: &mut Acc, b: &[u8]) {
     for off in [8usize, 16, 24, 40] {
         if b.len() >= off {
             let mut it = icmpv6::NdpOptionsIterator::from_slice(&b[off..]);
+            sw_iter(a, &it);
             let mut budget = 80;
             loop {
                 a.s(it.rest());
